@@ -6,6 +6,8 @@ cd /verif
 ids=("$@"); [ ${#ids[@]} -eq 0 ] && ids=($(ls seeded))
 for id in "${ids[@]}"; do
   d=seeded/$id; prop=${id%%-*}
+  # a change written against one property may break it only through behaviour another check owns (meta.json: check_with)
+  cw=$(python3 -c "import json,sys;print(json.load(open('$d/meta.json')).get('check_with',''))" 2>/dev/null); [ -n "$cw" ] && prop=$cw
   race=0; [ "$prop" = C03 ] && race=1
   t0=$(date +%s)
   out=$(VERIF_BUILD_RACE=$race VERIF_MINIMISE_S=15 scripts/with_tree.sh -p /verif/$d/patch.diff -- ./check $prop quick 2>&1); rc=$?
